@@ -255,3 +255,26 @@ pub proof fn lemma_relabelled_or_foreign_data_is_rejected(key: Seq<u8>, key2: Se
         ct == ringspec::seal_spec(key2, ringspec::ALG_CHACHA20_POLY1305(), nonce, aad_spec(v2), pt),
 {
 }
+// the body of `impl AsRef<[u8]> for Sealed` verified as an inherent method (as for Secret above): what is handed to a store is the payload
+impl Sealed {
+//@extract src/server/encryption.rs :: impl AsRef<[u8]> for Sealed :: fn as_ref
+    fn as_ref(&self) -> (r: &[u8])
+        ensures r@ == self.payload@,
+{
+        self.payload.as_ref()
+    }
+//@end
+}
+/// `impl From<Unsealed> for Vec<u8>`: the plaintext payload
+impl vstd::std_specs::convert::FromSpecImpl<Unsealed> for Vec<u8> {
+    open spec fn obeys_from_spec() -> bool { true }
+    open spec fn from_spec(val: Unsealed) -> Vec<u8> { val.payload }
+}
+impl From<Unsealed> for Vec<u8> {
+//@extract src/server/encryption.rs :: impl From<Unsealed> for Vec<u8> :: fn from
+    fn from(val: Unsealed) -> (r: Self)
+{
+        val.payload
+    }
+//@end
+}
